@@ -19,6 +19,7 @@ import (
 	"os"
 	"os/signal"
 	"path/filepath"
+	"runtime"
 	"sort"
 	"sync/atomic"
 	"syscall"
@@ -62,6 +63,13 @@ type Script struct {
 	MBS   int    `json:"mbs"`  // maxBlockSize
 	Steps []Step `json:"steps"`
 	Dir   string `json:"dir,omitempty"` // case directory (child mode)
+	// Inject: syscall name (pwrite64 | fsync | ftruncate) -> strace "when" expression ("3",
+	// "1..2", "2+"): strace makes those calls (counted per syscall over the child's workload
+	// thread) fail with EIO (strace -e inject=<syscall>:error=EIO:when=<expr>).
+	// The child locks its workload goroutine to the main thread, so the ordinal counts exactly
+	// the calls the workload makes (in-place header rewrites / fsyncs / truncations of the
+	// .hyd file; nothing else in the child uses these calls).
+	Inject map[string]string `json:"inject,omitempty"`
 }
 
 func (s *Script) NLen() int { return len(s.Name) }
@@ -72,6 +80,9 @@ type StepResult struct {
 	Call     int   `json:"call"` // index of the API call (MARK number), -1 when skipped
 	OK       bool  `json:"ok"`
 	Opened   bool  `json:"opened"` // the call opened the writer lazily (AOpen precedes it in the model history)
+	// OpenFailed: the lazy open failed (no writer descriptor on the .hyd file after the call):
+	// the treasure was rejected and the next Write opens again
+	OpenFailed bool `json:"open_failed,omitempty"`
 	Limit    int64 `json:"limit"`  // RLIMIT_FSIZE used, 0 = none
 	Snap     bool  `json:"snap"`
 }
@@ -155,6 +166,20 @@ func LoadImage(root string, img []byte, present bool, mbs int, name string) (str
 	return dir, LoadState(dir, mbs, name)
 }
 
+// hydOpen: does this process hold a descriptor on path (is the chronicler's writer open)?
+func hydOpen(path string) bool {
+	ents, err := os.ReadDir("/proc/self/fd")
+	if err != nil {
+		return true
+	}
+	for _, e := range ents {
+		if l, err := os.Readlink("/proc/self/fd/" + e.Name()); err == nil && l == path {
+			return true
+		}
+	}
+	return false
+}
+
 func fileSize(path string) (int64, bool) {
 	fi, err := os.Stat(path)
 	if err != nil {
@@ -196,6 +221,10 @@ func (r *runner) run() []StepResult {
 			r.ch.Write([]treasure.Treasure{tr})
 			res[i].OK = ErrorRecords() == e0
 			r.open = true
+			if res[i].Opened && !res[i].OK && !hydOpen(HydPath(r.dir)) {
+				res[i].OpenFailed = true
+				r.open = false
+			}
 		case KSync:
 			res[i].OK = r.ch.Sync() == nil
 		case KClose:
@@ -244,6 +273,7 @@ func RunInProc(dir string, s *Script) ([]int64, []StepResult) {
 // ChildMain runs the script stored in file and exits. The strace log of this process is
 // split per API call by the "MARK i" lines written to /dev/null.
 func ChildMain(file string) {
+	runtime.LockOSThread() // every syscall of the workload is made by the main thread (see Script.Inject)
 	SilenceLogs()
 	signal.Ignore(syscall.SIGXFSZ)
 	raw, err := os.ReadFile(file)
